@@ -284,6 +284,16 @@ static void scen_c05(int histories, int maxops, int ncancel) {
 }
 
 /* ------------------------------- C07 ------------------------------- */
+/* a value that depends on the endorsement primary seed: the Name of a keyedhash primary made from a fixed template */
+static int c07_fingerprint(Buf *b, uint8_t out[34]) {
+    Buf t = {0}; b_u16(&t, ALG_KEYEDHASH); b_u16(&t, ALG_SHA256); b_u32(&t, 0x00040472u); b_u16(&t, 0); b_u16(&t, ALG_HMAC); b_u16(&t, ALG_SHA256); b_u16(&t, 0);
+    cmd_begin(b, ST_SESSIONS, CC_CreatePrimary); b_u32(b, RH_ENDORSEMENT); auth_pw(b, "", 0); b_u16(b, 4); b_u16(b, 0); b_u16(b, 0); b_2b(b, t.p, t.n); b_u16(b, 0); b_u32(b, 0);
+    Rsp r = run(b); b_free(&t); if (r.rc != 0) return -1;
+    uint32_t h = g32(r.p + 10); Rd rd = rsp_params(&r, 1); uint16_t l; r_2b(&rd, &l); r_2b(&rd, &l); r_2b(&rd, &l); r_u16(&rd); r_u32(&rd); r_2b(&rd, &l); const uint8_t *nm = r_2b(&rd, &l);
+    int n = -1; if (!rd.err && l <= 34) { memcpy(out, nm, l); n = l; }
+    cmd_begin(b, ST_NO_SESSIONS, CC_FlushContext); b_u32(b, h); run(b);
+    return n;
+}
 static void scen_c07(int histories, int maxops) {
     Buf b = {0}; World w; memset(&w, 0, sizeof w);
     for (int h = 0; h < histories; h++) {
@@ -340,6 +350,18 @@ static void scen_c07(int histories, int maxops) {
         Rsp sr2 = tpm2_startup(&b, 0);
         tr("loadfault mode=%d validate=%u maininit=%u startup_rc=%u infail=%d", mode, vs2, mi2, sr2.rc, g_inFailureMode);
         faults_clear();
+        /* (e) the load callback fails at the k-th call of a MainInit over existing state (k = 0 is the probe for
+           existing state): whatever MainInit answers, the stored TPM must still be the same TPM afterwards */
+        { TPMLIB_Terminate(); TPM_RESULT m0 = TPMLIB_MainInit(); tpm2_startup(&b, 0);
+          uint8_t fp0[34], fp1[34]; int n0 = c07_fingerprint(&b, fp0);
+          TPMLIB_Terminate();
+          int k = rnd(3), mode2 = 1 + rnd(3); g_load_fail_at = g_load_calls + k; g_load_fail_mode = mode2; long f1 = g_fault_fired;
+          TPM_RESULT m1 = TPMLIB_MainInit(); int fired = g_fault_fired != f1;
+          int manufactured = m1 == 0 ? TPMLIB_WasManufactured() : 0;
+          faults_clear();
+          TPMLIB_Terminate(); TPM_RESULT m2 = TPMLIB_MainInit(); Rsp s2 = tpm2_startup(&b, 0);
+          int n1 = c07_fingerprint(&b, fp1);
+          tr("loadprobe k=%d mode=%d fired=%d pre=%u maininit=%u manufactured=%d after=%u startup_rc=%u n0=%d n1=%d same=%d", k, mode2, fired, m0, m1, manufactured, m2, s2.rc, n0, n1, n0 > 0 && n0 == n1 && !memcmp(fp0, fp1, n0)); }
     }
     w_reset(&w); b_free(&b);
 }
